@@ -73,6 +73,7 @@ package fdo
 //@   local done = addr:Alloc#1
 //@   local err = call:cbor.Decoder.Decode#1 | call:fdo.OwnerVoucherPersistentState.ReplaceVoucher#1 | extract1:call:fdo.TO2SessionState.GUID#1 | extract1:call:fdo.TO2SessionState.ProveDeviceNonce#1 | extract1:call:fdo.TO2SessionState.ReplacementGUID#1 | extract1:call:fdo.TO2SessionState.ReplacementHmac#1 | extract1:call:fdo.TO2SessionState.RvInfo#1 | extract1:call:fdo.TO2SessionState.SetupDeviceNonce#1 | extract1:call:fdo.VoucherPersistentState.Voucher#1 | extract2:call:fdo.TO2Server.ownerKey#1
 //@   local rsaBits = call:protocol.PublicKey.RsaBits#1
+//@   local setupDeviceNonce = extract0:call:fdo.TO2SessionState.SetupDeviceNonce#1
 //@   props C10(sweep)
 //@   sweep bounds,panic,make,nilmem,div
 
